@@ -247,6 +247,17 @@ theorem C10_quiescent (cfg : Settings) (t0 : Nat) (ops : List Op) :
     rw [← hfinal] at this
     exact (get_none_iff _ _).mp this hmem
 
+/-- **C10_expiry_empties.**  Also without any client finishing its stream the server forgets
+    everything once connections are gone: after every history on a clock that started above zero, if
+    every connection that owns a stream ends, more than the linger period passes and housekeeping
+    runs once, the table is empty — with lingering configured (the streams linger and then expire)
+    and without it (they are dropped at the disconnect). -/
+theorem C10_expiry_empties (cfg : Settings) (t0 : Nat) (ops : List Op) (conns : List Nat) (dt : Nat) (ht0 : 0 < t0) :
+    let r := exec cfg (State.init t0) ops
+    (∀ p ∈ r.1.table, ∀ c, p.2.owner = some c → c ∈ conns) → cfg.linger < dt →
+    (exec cfg r.1 (conns.map .disconnect ++ [.tick dt, .housekeeping])).1.table = [] :=
+  fun hown hlg => expiry_empties cfg _ (tinv_exec cfg ops _ (tinv_init cfg t0 ht0)) conns dt hown hlg
+
 /-! ## the client iterator -/
 
 /-- **C10_client_refines.**  Whatever the clients do (calls returning iterators, `next`, `close`,
@@ -403,7 +414,8 @@ theorem C10_housekeeping_serial (cfg : Settings) (s0 : State) (n : Nat) (schedul
   simp only [Lock.Op.run, Lock.runSteps, hkOp, List.foldl_cons, List.foldl_nil, doHousekeeping]
   by_cases he : st.table.isEmpty = true
   · have : st.table = [] := by simpa using he
-    simp [this]
+    cases st with
+    | mk tb nw ni => simp only at this; subst this; simp
   · simp [he]
 
 /-! ## non-vacuity -/
@@ -422,6 +434,9 @@ example : (exec cfgA (State.init 100) (histA.take 6)).1.table =
      (1, { owner := some 1, created := 100, linger := 0, rest := [.val 1] })] := by decide
 example : delivered 0 (exec cfgA (State.init 100) (histA.take 6)).2 = [.val 7, .val 8] ∧
     source 0 (exec cfgA (State.init 100) (histA.take 6)).2 = [.val 7, .val 8, .raises 3] := by decide
+-- expiry: both streams of histA's prefix are owned by connections 1 and 2; they end, 5 > linger passes, housekeeping
+example : (exec { cfgA with lifetime := 0 } (exec { cfgA with lifetime := 0 } (State.init 100) (histA.take 6)).1
+    ([1, 2].map .disconnect ++ [.tick 5, .housekeeping])).1.table = [] := by decide
 -- forgetCond: the lifetime branch and the linger branch both occur
 example : forgetCond cfgA 111 1 { owner := some 1, created := 100, linger := 0, rest := [] } .housekeeping := by
   simp [forgetCond, cfgA]
